@@ -7,6 +7,7 @@ import ESV.Comp.GuardDefs
 import ESV.Comp.CgDefs
 import Driver.Beh
 import ESV.SsbScript.Model
+import ESV.Comp.Project
 open Lean Drv ESV ESV.Comp
 
 
@@ -16,6 +17,8 @@ comp.frontend {prog}  →  the labelled code before the back end + whether its o
 comp.backend  {routines: labelled code}  →  ops | error   (the three back-end passes on arbitrary labelled code)
 comp.tosrc    {prog, core}  →  {"agree": bool, "f0": bool}: `toSrc prog` against the core program lowered for `Src.tr`;
               whether `prog` is in fragment F0 (`compile_correct_F0`)
+comp.flatten  {files: [{path, imports, prog}], exists, cwd, lookups, main}  →  {"perr": kind} | {macros, order, f5, f5why, result}:
+              the project flattened to one program (ESV/Comp/Project.lean) and compiled by the model
 comp.wfl      {prog}  →  {"wfl": bool, one flag per conjunct} | {"error": class}: the hypothesis `WFL` of the back-end theorem
               (ESV/Props/C01Backend.lean `backend_preserves`) evaluated on the labelled code the front-end model produces
 -/
@@ -163,6 +166,23 @@ def whyCases (sw : String) (nf : Bool) (prev : String) : Cases → String
       (if body.isNil then prev else lastKind body) r
 end
 
+/-- diagnostics only: why a program is outside `CgProg5` (empty = inside) -/
+def f5whyOf (p : Program) : String :=
+  if seqFrom p.routines 0 = false then "routine ids"
+        else if p.routines.any (fun r => !cgStmts 5 r.body) then
+          "stmt:" ++ (p.routines.foldl (fun acc r => if acc == "" then whyStmts r.body else acc) "")
+        else if ¬ (allDefs p).Nodup then "label defined twice"
+        else if p.routines.any (fun r => (mlStmts r.body).any (fun n => !(allDefs p).contains n)) then "label not defined"
+        else if ¬ (p.macros.map (·.name)).Nodup then "macro name twice"
+        else if p.macros.any (fun m => decide (¬ m.vars.Nodup)) then "macro variable twice"
+        else if p.macros.any (fun m => !cgStmts 5 m.body) then
+          "macro stmt:" ++ (p.macros.foldl (fun acc m => if acc == "" then whyStmts m.body else acc) "")
+        else if p.macros.any (fun m => decide (¬ (dfStmts m.body).Nodup)) then "macro label defined twice"
+        else if p.macros.any (fun m => (mlStmts m.body).any (fun n => !(dfStmts m.body).contains n)) then "macro label not defined in the macro"
+        else ""
+
+def compsOf (s : String) : ESV.Macro.Imp.Comps := ESV.Macro.Imp.normalize (ESV.Macro.Imp.parse s.toList).parts
+
 def handle (op : String) (j : Json) : R Json := do
   match op with
   | "comp.compile" =>
@@ -197,18 +217,24 @@ def handle (op : String) (j : Json) : R Json := do
           "stmt:" ++ (p.routines.foldl (fun acc r => if acc == "" then whyStmts r.body else acc) "")
         else if ¬ (allDefs p).Nodup then "label defined twice" else if ¬ CgProg 4 p then "label not defined" else "")),
       ("f5", .bool (decide (CgProg5 p))),
-      ("f5why", .str (if seqFrom p.routines 0 = false then "routine ids"
-        else if p.routines.any (fun r => !cgStmts 5 r.body) then
-          "stmt:" ++ (p.routines.foldl (fun acc r => if acc == "" then whyStmts r.body else acc) "")
-        else if ¬ (allDefs p).Nodup then "label defined twice"
-        else if p.routines.any (fun r => (mlStmts r.body).any (fun n => !(allDefs p).contains n)) then "label not defined"
-        else if ¬ (p.macros.map (·.name)).Nodup then "macro name twice"
-        else if p.macros.any (fun m => decide (¬ m.vars.Nodup)) then "macro variable twice"
-        else if p.macros.any (fun m => !cgStmts 5 m.body) then
-          "macro stmt:" ++ (p.macros.foldl (fun acc m => if acc == "" then whyStmts m.body else acc) "")
-        else if p.macros.any (fun m => decide (¬ (dfStmts m.body).Nodup)) then "macro label defined twice"
-        else if p.macros.any (fun m => (mlStmts m.body).any (fun n => !(dfStmts m.body).contains n)) then "macro label not defined in the macro"
-        else ""))])
+      ("f5why", .str (f5whyOf p))])
+  | "comp.flatten" =>
+    -- a project of files with imports: flattened to one program (ESV/Comp/Project.lean), then as comp.compile / comp.tosrc
+    let files ← (← asArr (← fld j "files")).mapM fun f => do
+      let pr ← programOf (← fld f "prog")
+      let imps ← (← asArr (← fld f "imports")).mapM asStr
+      pure (compsOf (← asStr (← fld f "path")), (⟨imps, pr.macros, pr.macroOrder, pr.routines⟩ : PFile))
+    let ex := (← (← asArr (← fld j "exists")).mapM asStr).map compsOf
+    let cwd := compsOf (← asStr (← fld j "cwd"))
+    let lookups := (← (← asArr (← fld j "lookups")).mapM asStr).map String.toList
+    match flatten files (fun c => ex.contains c) cwd lookups (compsOf (← asStr (← fld j "main"))) with
+    | .error e => pure (Json.mkObj [("perr", .str e.name)])
+    | .ok p =>
+      let res := match compile p with
+        | .error e => Json.mkObj [("error", .str e.name)]
+        | .ok r => resultTo (.ok r.ops) r.infos r.coros
+      pure (Json.mkObj [("macros", jList Json.str (p.macros.map (·.name))), ("order", jList Json.str p.macroOrder),
+        ("f5", .bool (decide (CgProg5 p))), ("f5why", .str (f5whyOf p)), ("result", res)])
   | "comp.backend" =>
     let rs ← (← asArr (← fld j "routines")).mapM fun r => do (← asArr r).mapM itemOf
     pure (resultTo (backend rs) [] [])
